@@ -16,7 +16,7 @@ KNOWN_OK = {
 }
 
 
-def check(run, prog, rid, classes, what):
+def check(run, prog, rid, classes, what, also_ok=None, subclasses=None):
     control = memo.find_memos(prog, prog.cls("quantarhei.builders.molecules.Molecule"))
     if not any(m.attr == "HH" and m.func.name == "get_Hamiltonian" for m in control):
         raise AnalysisError("%s: the memo analysis no longer recognises the documented cache Molecule.get_Hamiltonian "
@@ -25,14 +25,16 @@ def check(run, prog, rid, classes, what):
     for q in classes:
         cls = prog.cls(q)
         nmeth = len([f for f in cls.methods.values()])
-        memos = memo.check_class(run, rid, prog, cls, what, known_ok=KNOWN_OK)
-        live = [m for m in memos if (m.func.short, m.attr) not in KNOWN_OK]
+        ok_here = dict(KNOWN_OK)
+        ok_here.update(also_ok or {})
+        memos = memo.check_class(run, rid, prog, cls, what, known_ok=ok_here, subclasses=subclasses)
+        live = [m for m in memos if (m.func.short, m.attr) not in ok_here]
         for f in cls.methods.values():
             prog.consulted.add(f.relpath)
         run.obligation(rid, cls.name, True, key="scanned",
                        message="", loc="%s:%d" % (cls.module.relpath, cls.node.lineno),
                        sample={"class": cls.name, "methods_scanned": nmeth,
                                "stored_results_found": [repr(m) for m in memos],
-                               "accepted": [KNOWN_OK[(m.func.short, m.attr)] for m in memos if (m.func.short, m.attr) in KNOWN_OK]})
+                               "accepted": [ok_here[(m.func.short, m.attr)] for m in memos if (m.func.short, m.attr) in ok_here]})
         total += 1 + len(live)
     return total
